@@ -527,6 +527,7 @@ func c06scenarios() []*schedx.Scenario {
 	D1 := c06con("D1", PA, c1d)
 	CP := c06con("CP", PA, c1, c2)
 	DP := c06con("DP", PB, c2, c1d) // second entry clashes after the first was stored
+	C2b := c06con("C2b", PB, c06contribRaw(10, 2, 0x44, 0x03))
 
 	S := func(n string, duty core.Duty, items ...c06item) c06op { return c06op{kind: "S", name: n, duty: duty, items: items} }
 	RA := func(n string, slot, comm uint64) c06op {
@@ -567,6 +568,10 @@ func c06scenarios() []*schedx.Scenario {
 	add("att-pubkey-clash", 2, T(S("sX", attD, X)), T(S("sKc", attD, Kc)), T(PK("pk", 10, 3, 1), PK("pk0", 10, 0, 1)))
 	add("att-reader-cancel-writer", 1, T(RA("ra", 10, 3)), T(C("c", "T0")), T(S("sX", attD, X)), T(RA("ra", 10, 3)))
 	add("att-multi-entry-second-clashes", 2, T(S("sY", attD, Y)), T(RA("ra4", 10, 4)), T(S("sXZ", attD, X, Z)), T(RA("ra3", 10, 3)))
+	// a store that failed half-way (its first entry was stored, the second clashed) followed by a successful store of
+	// the same first entry: the reader of that entry must be served by the successful store although it adds nothing new
+	add("att-failed-multi-then-successful-restore", 2, T(S("sY", attD, Y), RA("ra4", 10, 4)), T(S("sXZ", attD, X, Z), S("sZ", attD, Z)))
+	add("att-failed-multi-then-successful-restore-3t", 2, T(S("sY", attD, Y)), T(RA("ra4", 10, 4)), T(S("sXZ", attD, X, Z), S("sZ", attD, Z)))
 	// proposals
 	add("pro-2readers-conflicting-writers", 1, T(RP("rp", 10)), T(RP("rp", 10)), T(S("sP", proD, P)), T(S("sQ", proD, Q)))
 	add("pro-equal-writers-cancel", 1, T(RP("rp", 10)), T(C("c", "T0")), T(S("sP", proD, P)), T(S("sP2", proD, P2), RP("rp", 10)))
@@ -576,8 +581,8 @@ func c06scenarios() []*schedx.Scenario {
 	// sync contributions
 	add("con-clash", 1, T(RC("rc", 10, 1, 0x44)), T(S("sC1", conD, C1)), T(S("sD1", conD, D1)), T(RC("rc2", 10, 1, 0x44)))
 	add("con-equal-plural", 2, T(RC("rc1", 10, 1, 0x44)), T(RC("rc2", 10, 2, 0x44)), T(S("sCP", conD, CP)), T(S("sC1b", conD, C1b)))
+	add("con-failed-plural-then-successful-restore", 1, T(S("sC1", conD, C1), RC("rc2", 10, 2, 0x44)), T(S("sDP", conD, DP), S("sC2b", conD, C2b)))
 	add("con-plural-second-clashes", 2, T(RC("rc2", 10, 2, 0x44)), T(S("sC1", conD, C1)), T(S("sDP", conD, DP)), T(RC("rc1", 10, 1, 0x44)))
-	C2b := c06con("C2b", PB, c06contribRaw(10, 2, 0x44, 0x03))
 	add("con-two-validators", 2, T(RC("rc1", 10, 1, 0x44)), T(RC("rc2", 10, 2, 0x44)), T(S("sC12", conD, C1, C2b)))
 	// mixed duty types: a store of one type must not be needed to wake readers of another
 	add("mixed-types", 1, T(RA("ra", 10, 3)), T(RP("rp", 10)), T(S("sX", attD, X)), T(S("sP", proD, P)))
